@@ -201,6 +201,7 @@ fn main() {
         }
         // allocation correspondence: real units vs Model/BitfieldAlloc.lean
         let mut overridden: std::collections::BTreeSet<(String, u64)> = Default::default(); // (struct, nth)
+        let mut model_offs: BTreeMap<(String, u64), Vec<u64>> = BTreeMap::new();
         if let Some(d) = log.dumps.first() {
             let mut tylayout: BTreeMap<u64, (u64, u64)> = BTreeMap::new();
             let mut packed_comp: BTreeMap<u64, bool> = BTreeMap::new();
@@ -264,6 +265,11 @@ fn main() {
                         corr.push(format!("{{\"class\":\"bitfield-allocation\",\"request\":{},\"model\":{},\"implementation\":{},\"struct\":{}}}", json_str(rq), json_str(a), json_str(&want), json_str(cn)));
                     }
                     if a.ends_with("overridden=1") { overridden.insert((cn.clone(), *nth)); }
+                    // the offsets the unchanged algorithm (the model) assigns: the regions below are defined on them,
+                    // not on what the implementation under test produced
+                    if let Some(o) = a.split(' ').find_map(|t| t.strip_prefix("offs=")) {
+                        model_offs.insert((cn.clone(), *nth), o.split(',').filter_map(|x| x.parse::<u64>().ok()).collect());
+                    }
                 }
             }
         }
@@ -300,10 +306,12 @@ fn main() {
                     // under `#pragma pack(1)`)
                     let mut inconsistent = false;
                     let mut need_bits = 0u64;
-                    for bf in r.get("bfs").split(',') {
+                    let moffs = model_offs.get(&(cn.clone(), r.num("nth").unwrap_or(0)));
+                    for (bi, bf) in r.get("bfs").split(',').enumerate() {
                         let p: Vec<&str> = bf.split(':').collect();
                         if p.len() >= 5 {
                             if let (Ok(off), Ok(w)) = (p[2].parse::<u64>(), p[3].parse::<u64>()) {
+                                let off = moffs.and_then(|m| m.get(bi).copied()).unwrap_or(off);
                                 need_bits = need_bits.max(off + w);
                                 if let Ok(abs) = p[4].parse::<u64>() {
                                     if abs >= off {
